@@ -23,10 +23,12 @@ TEXT = {
            "fuel is never exhausted, for every packet type, receiver state, byte string and reader script) and C05_lists_bounded (a decoded packet holds at "
            "most length(data) more list elements - user properties incl. the will's, subscription identifiers, topic filters, reason codes - than the "
            "receiver held before: every append is paid for by a byte of input; Proofs/BoundP.v), C05_work_bounded (at most 2*length(data)+16 buffer.get calls "
-           "for every packet type, receiver state and byte string; Proofs/StepsP.v). Allocation size and wall-clock time are checked on the "
+           "for every packet type, receiver state and byte string; Proofs/StepsP.v), C05_bytes_bounded (the bytes of strings and binary data the packet holds - fields, will, user "
+           "properties, topic filters - never exceed what the receiver held before plus length(data), on success and on failure: every byte stored is a byte of input moved past; "
+           "Proofs/BytesBoundP.v). Allocation by the Go runtime and wall-clock time are checked on the "
            "implementation (watchdog, allocation oracle), not proved.",
   "note": NOTE + " Wall-clock time and the Go allocator are not modelled.",
-  "technique": "Coq proof of fuel sufficiency (measure len(data)-offset), of the list-length bound (potential: elements minus offset) and of a linear bound on decoding steps + correspondence with TIMEOUT observable + allocation/list-length oracle",
+  "technique": "Coq proof of fuel sufficiency (measure len(data)-offset), of the list-length bound (potential: elements minus offset), of the retained-bytes bound (potential: bytes held minus offset) and of a linear bound on decoding steps + correspondence with TIMEOUT observable + allocation/list-length oracle",
  },
  "C06": {
   "level": "Theorems C06_exact and C06_sequence: for every frame, every continuation and every legal delivery, ReadPacket obtains exactly the frame's "
